@@ -10,12 +10,13 @@ from vk.ob import obligation, THOROUGH
 
 
 @obligation(funcs=["storage.db.DBStorage.add_event", "storage.db.DBStorage.process_tags"], timeout=(450, 1800),
-            bounds="store {e0 (author A/B), bystander e1} then a kind-5 event with <=2 tags by selector from {e:e0, e:e1, e:unknown, "
+            bounds="store {e0 (author A/B), bystander e1} then a kind-5 event with <=2 tags (quick tier: pairs only among the two stored ids) by selector from {e:e0, e:e1, e:unknown, "
                    "bare e, p:e0, e:E0 upper-case}; timestamps symbolic")
 def ob_sql_delete(p0: bool, t0: int, p1: bool, t1: int, p2: bool, t2: int, g: List[int]) -> str:
     """
     pre: 1 <= t0 <= 200 and 1 <= t1 <= 200 and 1 <= t2 <= 200
-    pre: len(g) <= (2 if THOROUGH else 1) and all(0 <= x < len(K.REFS) for x in g)
+    pre: len(g) <= 2 and all(0 <= x < len(K.REFS) for x in g)
+    pre: THOROUGH or (len(g) < 2 or (g[0] < 2 and g[1] < 2)) 
     post: _.startswith("ok")
     """
     logging.disable(logging.CRITICAL)
